@@ -11,10 +11,14 @@ From SQ Require Import lib.Base.
 Local Open Scope N_scope.
 
 Record entry := mk_entry { e_cur : N;        (* sender::State.current_id *)
-                           e_aged : bool }.  (* entry.age() > 10 s *)
+                           e_aged : bool;    (* entry.age() > 10 s *)
+                           e_peer : N }.     (* entry.peer(): the address the secret was negotiated with *)
 
 Record mstate := mk_m {
   m_entries : list (N * entry);   (* ids: credential id -> entry *)
+  m_peers : list (N * N);         (* peers: address -> credential id of the entry stored for it (the
+                                     newest secret negotiated with that address) *)
+  m_next : N;                     (* number of secrets inserted so far = next fresh credential id *)
   m_evict : bool;                 (* should_evict_on_unknown_path_secret *)
   m_hs : N;                       (* request_handshake calls *)
   m_acc : N; m_rej : N; m_drop : N }.   (* *_packet_accepted / rejected / dropped events *)
@@ -37,32 +41,63 @@ Fixpoint update (id : N) (e' : entry) (l : list (N * entry)) : list (N * entry) 
   | (k, e) :: t => if k =? id then (k, e') :: t else (k, e) :: update id e' t
   end.
 
+Fixpoint plookup (a : N) (l : list (N * N)) : option N :=
+  match l with
+  | [] => None
+  | (k, i) :: t => if k =? a then Some i else plookup a t
+  end.
+
+(* PeerMap::remove_exact: drop the binding of the entry's address only if it is that very entry
+   (compared by credential id), so that a newer secret for the same address survives *)
+Fixpoint remove_exact (a id : N) (l : list (N * N)) : list (N * N) :=
+  match l with
+  | [] => []
+  | (k, i) :: t => if (k =? a) && (i =? id) then remove_exact a id t else (k, i) :: remove_exact a id t
+  end.
+
+(* PeerMap::insert: one binding per address, the new entry replaces the previous one *)
+Fixpoint pinsert (a id : N) (l : list (N * N)) : list (N * N) :=
+  match l with
+  | [] => [(a, id)]
+  | (k, i) :: t => if k =? a then (k, id) :: t else (k, i) :: pinsert a id t
+  end.
+
 (* a decoded secret-control packet: kind 0 UnknownPathSecret, 1 StaleKey, 2 ReplayDetected;
    the credential id it names; min_key_id / rejected_key_id *)
 Record cpkt := mk_cp { c_kind : N; c_id : N; c_val : N }.
 
 Definition with_entries (s : mstate) (l : list (N * entry)) : mstate :=
-  mk_m l (m_evict s) (m_hs s) (m_acc s) (m_rej s) (m_drop s).
+  mk_m l (m_peers s) (m_next s) (m_evict s) (m_hs s) (m_acc s) (m_rej s) (m_drop s).
 
 (* [auth] is the answer of packet.authenticate under the key of the looked-up entry *)
 Definition handle (auth : entry -> cpkt -> bool) (s : mstate) (p : cpkt) : mstate :=
   match lookup (c_id p) (m_entries s) with
-  | None => mk_m (m_entries s) (m_evict s) (m_hs s) (m_acc s) (m_rej s) (m_drop s + 1)
+  | None => mk_m (m_entries s) (m_peers s) (m_next s) (m_evict s) (m_hs s) (m_acc s) (m_rej s) (m_drop s + 1)
   | Some e =>
-      if negb (auth e p) then mk_m (m_entries s) (m_evict s) (m_hs s) (m_acc s) (m_rej s + 1) (m_drop s)
+      if negb (auth e p) then
+        mk_m (m_entries s) (m_peers s) (m_next s) (m_evict s) (m_hs s) (m_acc s) (m_rej s + 1) (m_drop s)
       else
         match c_kind p with
-        | 0 =>   (* request_handshake, then evict when configured and the entry is old enough *)
+        | 0 =>   (* request_handshake, then evict when configured and the entry is old enough:
+                    ids.remove(id), peers.remove_exact(entry) *)
             let should_evict := m_evict s && e_aged e in
             mk_m (if should_evict then remove (c_id p) (m_entries s) else m_entries s)
-                 (m_evict s) (m_hs s + 1) (m_acc s + 1) (m_rej s) (m_drop s)
+                 (if should_evict then remove_exact (e_peer e) (c_id p) (m_peers s) else m_peers s)
+                 (m_next s) (m_evict s) (m_hs s + 1) (m_acc s + 1) (m_rej s) (m_drop s)
         | 1 =>   (* sender.update_for_stale_key: fetch_max *)
-            mk_m (update (c_id p) (mk_entry (N.max (e_cur e) (c_val p)) (e_aged e)) (m_entries s))
-                 (m_evict s) (m_hs s) (m_acc s + 1) (m_rej s) (m_drop s)
+            mk_m (update (c_id p) (mk_entry (N.max (e_cur e) (c_val p)) (e_aged e) (e_peer e)) (m_entries s))
+                 (m_peers s) (m_next s) (m_evict s) (m_hs s) (m_acc s + 1) (m_rej s) (m_drop s)
         | _ =>   (* ReplayDetected: background handshake *)
-            mk_m (m_entries s) (m_evict s) (m_hs s + 1) (m_acc s + 1) (m_rej s) (m_drop s)
+            mk_m (m_entries s) (m_peers s) (m_next s) (m_evict s) (m_hs s + 1) (m_acc s + 1) (m_rej s) (m_drop s)
         end
   end.
+
+(* a new handshake with the peer at address [a] completed (on_new_path_secrets +
+   on_handshake_complete): a fresh credential id enters ids, the address map now points to it;
+   the previous secret of that address stays in ids until it is retired *)
+Definition rehandshake (s : mstate) (a : N) (aged : bool) : mstate :=
+  mk_m (m_entries s ++ [(m_next s, mk_entry 0 aged a)]) (pinsert a (m_next s) (m_peers s))
+       (m_next s + 1) (m_evict s) (m_hs s) (m_acc s) (m_rej s) (m_drop s).
 
 (* Map::seal_once_id -> entry.uni_sealer -> sender.next_key_id: issues current, stores current + 1
    (panics when current + 1 would be the reserved maximum) *)
@@ -71,28 +106,31 @@ Definition issue (s : mstate) (id : N) : mstate * Z :=
   | None => (s, (-1)%Z)
   | Some e =>
       if e_cur e + 1 <? varint_max then
-        (with_entries s (update id (mk_entry (e_cur e + 1) (e_aged e)) (m_entries s)), Nz (e_cur e))
+        (with_entries s (update id (mk_entry (e_cur e + 1) (e_aged e) (e_peer e)) (m_entries s)), Nz (e_cur e))
       else (s, (-2)%Z)
   end.
 
 (* what the property talks about: the map contents (which ids, which sender key ids) and the
    number of handshake requests *)
-Definition proj (s : mstate) : list (N * entry) * N := (m_entries s, m_hs s).
+Definition proj (s : mstate) : list (N * entry) * list (N * N) * N := (m_entries s, m_peers s, m_hs s).
 
 (* ------------------------------------------------------------------ harness protocol *)
-(* case = evict :: aged :: ops; the map holds two entries, ids 0 and 1 (peer 0, peer 1);
-   op 0 k                      : issue a key id for entry k
-   op _ k kind mode val via    : deliver a packet of [kind] naming entry k's credential id
+(* case = evict :: aged :: ops; the map starts with two secrets, credential ids 0 and 1, for the
+   peer addresses 0 and 1; ids are numbered in insertion order and k selects one (mod the number
+   inserted so far);
+   op 0 k                      : issue a key id for secret k
+   op 2 a                      : re-handshake with peer address a mod 2 (a fresh secret for it)
+   op _ k kind mode val via    : deliver a packet of [kind] naming secret k's credential id
         mode 0 authentic; 1 random tag; 2 tag made with the other entry's key / another signer;
         3 authentic for a credential id the map does not hold; 4 authentic with one tag bit flipped
    output per op: [issued or -1] for op 0, then
         contains(peer0) contains(peer1) secrets_len handshake_requests accepted rejected dropped *)
 Definition nxt (l : list Z) : Z * list Z := (hd 0%Z l, tl l).
-Definition unknown_id : N := 2.
+Definition unknown_id : N := 1000000.
 
 Definition obs (s : mstate) : list Z :=
-  [bz (match lookup 0 (m_entries s) with Some _ => true | None => false end);
-   bz (match lookup 1 (m_entries s) with Some _ => true | None => false end);
+  [bz (match plookup 0 (m_peers s) with Some _ => true | None => false end);
+   bz (match plookup 1 (m_peers s) with Some _ => true | None => false end);
    Z.of_nat (length (m_entries s)); Nz (m_hs s); Nz (m_acc s); Nz (m_rej s); Nz (m_drop s)].
 
 (* the harness builds the packet so that it is authentic exactly in mode 0 *)
@@ -106,10 +144,14 @@ Fixpoint run_ops (fuel : nat) (s : mstate) (ops : list Z) : list Z :=
       | [] => []
       | op :: r =>
           let '(k, r) := nxt r in
-          let id := zN k mod 2 in
+          let id := zN k mod m_next s in
           if (op =? 0)%Z then
             let '(s', out) := issue s id in
             out :: obs s' ++ run_ops f s' r
+          else if (op =? 2)%Z then
+            (* inserted while the case runs: younger than 10 s *)
+            let s' := rehandshake s (zN k mod 2) false in
+            obs s' ++ run_ops f s' r
           else
             let '(kind, r) := nxt r in
             let '(mode, r) := nxt r in
@@ -123,7 +165,7 @@ Fixpoint run_ops (fuel : nat) (s : mstate) (ops : list Z) : list Z :=
   end.
 
 Definition init (evict aged : bool) : mstate :=
-  mk_m [(0, mk_entry 0 aged); (1, mk_entry 0 aged)] evict 0 0 0 0.
+  mk_m [(0, mk_entry 0 aged 0); (1, mk_entry 0 aged 1)] [(0, 0); (1, 1)] 2 evict 0 0 0 0.
 
 Definition run (case : list Z) : list Z :=
   let '(ev, r) := nxt case in
@@ -155,7 +197,7 @@ Fixpoint merge_rd (out : list Z) (ops : list Z) (fuel : nat) : list Z :=
           let o := skipn skip out in
           let blk := firstn 7 o in
           let blk' := firstn 5 blk ++ [(nth 5 blk 0 + nth 6 blk 0)%Z] in
-          pre ++ blk' ++ merge_rd (skipn 7 o) (skipn (if (op =? 0)%Z then 1 else 5) r) f
+          pre ++ blk' ++ merge_rd (skipn 7 o) (skipn (if (op =? 0)%Z || (op =? 2)%Z then 1 else 5) r) f
       end
   end.
 
